@@ -9,9 +9,15 @@ ID="$1"
 [ -n "$2" ] && export VERIF_TIER="$2"
 [ -z "$VERIF_TIER" ] && export VERIF_TIER=quick
 mkdir -p .bin .scratch
+# Builds read /repo. tools/seed_eval.sh holds this lock while a seeded change is
+# applied there, so that a check started by somebody else never compiles it in.
+if [ -z "$VERIF_NO_BUILD_LOCK" ] && command -v flock >/dev/null 2>&1; then
+  { exec 9>/repo/.git/verif-build.lock; } 2>/dev/null && flock 9
+fi
 if ! go build -tags verif -o ".bin/h-$ID" ./cmd/harness 2>".scratch/build-$ID.log"; then
   echo "BROKEN-CHECK: harness does not build against /repo (see below)"
   cat ".scratch/build-$ID.log"
   exit 2
 fi
+exec 9>&- 2>/dev/null
 exec ".bin/h-$ID" run "$ID"
